@@ -8,16 +8,17 @@ package retry
 //@ props C14
 
 // Retry loop: success or a non-retryable error is returned at once and unchanged; the wait is the greater of the
-// throttle and the backoff delay; the loop gives up when the time budget is (or would be) exceeded.
+// throttle and the backoff delay; the loop gives up when the time budget is (or would be) exceeded - measured on the
+// clock *after* the failed attempt (since(t) is the time elapsed since t on a ghost monotone clock that every attempt advances).
 //@ func (c Config) RequestFunc$2(ctx context.Context, fn func(context.Context) error) (r error)
 //@   overflow assumed
 //@   requires fn != nil && evaluate != nil
 //@   assert@return#1 : err == nil && $ret0 == nil
 //@   assert@return#2 : err != nil && !retryable && $ret0 == err
-//@   assert@return#3 : retryable && maxElapsedTime != 0 && $ret0 != nil
-//@   assert@return#4 : retryable && maxElapsedTime != 0 && elapsed + throttle > maxElapsedTime && $ret0 != nil
+//@   assert@return#3 : retryable && maxElapsedTime != 0 && since(startTime) > maxElapsedTime && $ret0 != nil
+//@   assert@return#4 : retryable && maxElapsedTime != 0 && since(startTime) + throttle > maxElapsedTime && $ret0 != nil
 //@   assert@return#5 : retryable && $ret0 != nil
-//@   assert@call waitFunc#1 : retryable && $arg1 == delay && delay >= throttle && delay >= bOff && (maxElapsedTime == 0 || elapsed + throttle <= maxElapsedTime)
+//@   assert@call waitFunc#1 : retryable && $arg1 == delay && delay >= throttle && delay >= bOff && (maxElapsedTime == 0 || since(startTime) + throttle <= maxElapsedTime)
 
 // retry disabled: exactly one attempt, its result is returned
 //@ func (c Config) RequestFunc$1(ctx context.Context, fn func(context.Context) error) (r error)
